@@ -1,2 +1,3 @@
 import RoProps.C01
 import RoProps.C04
+import RoProps.C11
